@@ -15,7 +15,7 @@ RULE = ("the C15 configuration space (model tags x rated power x all subsets of 
 ASSUMPTIONS = ["the simulated inverter answers every read with exactly 2 x count payload bytes",
                "values decoded from a refused block's predecessor response would also show as foreign reads in C12/C15; this "
                "check decides only 'no reported value is fabricated from missing bytes'"]
-MUST = ["offered_sensors_checked", "single_reads_observed", "overlapping_polls", "poll_with_transient_rejection", "poll_after_failed_device_info", "tcp_wrong_mbap_length", "configs_run", "reads_observed", "block_running", "block_battery", "block_battery2", "block_meter_basic",
+MUST = ["connect_while_inverter_silent", "offered_sensors_checked", "single_reads_observed", "overlapping_polls", "poll_with_transient_rejection", "poll_after_failed_device_info", "tcp_wrong_mbap_length", "configs_run", "reads_observed", "block_running", "block_battery", "block_battery2", "block_meter_basic",
         "block_meter_ext", "block_meter_ext2", "block_mppt", "block_dt_running", "block_dt_meter", "block_es_runtime"]
 EXHAUSTIVE = {"quick": False, "thorough": True}
 
@@ -27,6 +27,8 @@ BLOCK_OF = {(35100, 125): "block_running", (37000, 24): "block_battery", (39000,
 def check_config(cfg, part, rl, port=8899, mbap=None, rerun_info=False):
     g = env.goodwe()
     fam = cfg["family"]
+    case = {"config": cfg, "port": port, "mbap": mbap}
+    tag = f"{fam} {cfg['tag']} rated={cfg['rated']} refused={cfg['refused']} battery={cfg['battery']}"
 
     async def failing_device_info_then_poll(inv, sim, loop, res_):
         """history: a repeated read_device_info() gets no answer (reconnect), the next poll must still decode only what it fetched"""
@@ -45,6 +47,40 @@ def check_config(cfg, part, rl, port=8899, mbap=None, rerun_info=False):
             if entry[3] < entry[2]:
                 res_["short_reads"].append((9,) + entry)
         part.count("poll_after_failed_device_info")
+
+    async def connect_while_silent(inv, sim, loop, res_):
+        """history: connect(family=...) is attempted while the inverter does not answer; if it hands out an object all the same, that
+        object's polls must still decode only what they fetched and offer only what they fetch"""
+        sim.silent = True
+        try:
+            inv2 = await g.connect("inv0", port, fam, 0, 1, 0)
+        except g.InverterError:
+            inv2 = None
+        sim.silent = False
+        part.count("connect_while_inverter_silent")
+        if inv2 is None:
+            return
+        windows = None
+        for _ in range(3):
+            n0 = len(sim.log)
+            rl.start()
+            try:
+                await inv2.read_runtime_data()
+                windows = [(r[2]["reg"], r[2]["count"]) for r in sim.log[n0:] if r[2]["kind"] == "read"]
+            except g.InverterError:
+                pass
+            for entry in rl.stop():
+                if entry[3] < entry[2]:
+                    res_["short_reads"].append((50,) + entry)
+        if windows and fam != "ES":
+            for sn_ in inv2.sensors():
+                size_ = getattr(sn_, "size_", 0)
+                lo_, hi_ = sn_.offset, sn_.offset + (size_ + 1) // 2 - 1
+                if size_ > 0 and not any(a <= lo_ and hi_ <= a + c - 1 for a, c in windows) and sn_.id_ not in ("apparent_power2", "apparent_power3"):
+                    part.violate(f"C14/{fam}/unidentified-object/read-past-window/{sn_.id_}",
+                                 f"{tag}: connect() returned an object although read_device_info() got no answer; it offers {sn_.id_} at {lo_}..{hi_} "
+                                 f"but its polls fetch only {[(a, a + c - 1) for a, c in windows]}", case)
+                    break
 
     async def transient_rejections(inv, sim, loop, res_):
         """history: for one poll each, one block read is refused with an exception OTHER than ILLEGAL DATA ADDRESS (busy, device
@@ -100,7 +136,7 @@ def check_config(cfg, part, rl, port=8899, mbap=None, rerun_info=False):
             part.count("overlapping_polls")
 
     res = configs.run_config(cfg, ncalls=3, port=port, readlog=rl, mbap_len_bug=mbap,
-                             extra=({"transient": transient_rejections, "overlap": single_reads_and_overlapping_polls}.get(rerun_info, failing_device_info_then_poll)) if rerun_info else None)
+                             extra=({"transient": transient_rejections, "overlap": single_reads_and_overlapping_polls, "connect": connect_while_silent}.get(rerun_info, failing_device_info_then_poll)) if rerun_info else None)
     run = res["run"]
     part.evaluations += 1
     part.count("configs_run")
@@ -198,7 +234,7 @@ def run_shard(spec):
     for i, cfg in enumerate(allc):
         if i % spec["shards"] != spec["shard"]:
             continue
-        check_config(cfg, part, rl, 8899, rerun_info=("transient" if i % 10 == 5 else "overlap" if i % 10 == 3 else i % 5 == 0))
+        check_config(cfg, part, rl, 8899, rerun_info=("transient" if i % 10 == 5 else "overlap" if i % 10 == 3 else "connect" if i % 10 == 7 else i % 5 == 0))
         if cfg["family"] != "ES" and (tier != "quick" or i % 7 == 0):
             # Modbus/TCP; every other run against firmware that sends a wrong MBAP length field (a known GoodWe quirk)
             check_config(cfg, part, rl, 502, mbap=(None, "request", "bytecount")[i % 3])
